@@ -34,7 +34,7 @@ N_INVALID = [0, -1, -2, -5, 0.0, -0.0, -1.0, -3.0, 0.5, 1.5, 2.000001, -2.5, 1e-
              math.nextafter(2, 3), math.nextafter(2, 1), math.nextafter(1, 0), math.nextafter(3, 4), 2.9999999999, 3.0000000001, 0.29 * 100,
              0.1 * 3 * 10 if (0.1 * 3 * 10) != 3 else 3.0000000000000004, 1 + 2 ** -40, 5 - 1e-12, math.nextafter(0, 1), -math.nextafter(1, 2),
              "2", "two", None, Fraction(3), Fraction(1, 2), Decimal(2), 2 + 0j, [2], (2,), {2}]
-BASE_VALID_EXP = [math.e, 2, 10, 0.5, 0.1, 1e-300, 1e300, 1, 1.0, 3, 7.25, 0.9999999, 5e-324, 2.0]
+BASE_VALID_EXP = [math.e, 2, 10, 0.5, 0.1, 1e-300, 1e300, 1, 1.0, 3, 7.25, 0.9999999, 5e-324, 2.0, math.nextafter(1, 2), math.nextafter(1, 0), 1 + 1e-10]
 BASE_VALID_LOG = [b for b in BASE_VALID_EXP if b != 1]
 BASE_INVALID = [0, 0.0, -0.0, -1, -2.5, -1e-300, -math.e, -float("inf"), "2", None, 2 + 0j, [2], (2,), "e"]
 NAMES_VALID = ["x", "y", "theta", "x1", "_", "__", "_x", "a_b", "X", "1x", "9", "007", "été", "π", "变量", "x٣", "Δt", "ß", "class", "lambda",
